@@ -427,7 +427,7 @@ def lane_flow(rep, repo, mod):
             rep.violate('C06.lane', mod, f, defs[0], f'{q}: lane variable `{lane}` must come straight from the launch index / lane range', node=defs[0])
     rep.floor('lane variable uses', n, 40)
     # every signal-array access in the kernel has the lane as last index
-    K = Kernel(repo)
+    K = NS_(f=mod.func('_wave_eval'))
     bad = [s for s in ast.walk(K.f) if isinstance(s, ast.Subscript) and cz(s.value) == 'cbuf' and not (isinstance(s.slice, ast.Tuple) and len(s.slice.elts) == 2 and cz(s.slice.elts[1]) == 'sim')]
     rep.ob('C06.lane', '_wave_eval: every cbuf access is cbuf[<row>, sim]', not bad)
     for s in bad:
@@ -519,7 +519,32 @@ def thread_guards(rep, repo, mod):
                         f'(otherwise the GPU path computes something else than the CPU path)', node=fdef)
 
 
+class NS_:
+    def __init__(self, **kw):
+        self.__dict__.update(kw)
+
+
+def _c06_kernel_eval(rep, repo):
+    from checks import kernel_eval
+    if getattr(rep, '_c06_ke', None) is None:
+        rep._c06_ke = bool(kernel_eval.decide(rep, repo, 'C06', ('dataset', 'bounds')))
+    return rep._c06_ke
+
+
 def dataset_selection(rep, repo, mod):
+    """the dataset rules; a kernel the path engine cannot parse is decided by the evaluated kernel rule (clause `dataset`) and the evaluated constructor"""
+    from checks import kernel_eval, wavesim_init_eval
+    ke = _c06_kernel_eval(rep, repo)
+    try:
+        _dataset_selection(rep, repo, mod)
+    except ModelError as e:
+        if not ke:
+            raise
+        rep.note(f'C06.dataset: the path rules do not recognise the shape of the kernel ({e}); decided by the evaluated kernel rule C06.kernel-eval (bounded family of situations)')
+        wavesim_init_eval.decide(rep, repo, 'C06.dataset', ('delays', 'simctl', 'memory'))
+
+
+def _dataset_selection(rep, repo, mod):
     rep.rule('C06.dataset', 'delay dataset: skipped for a single dataset; mode 0 -> delays[seed], mode 1 -> delays[simctl_int[0]], else hash-picked index modulo len(delays); afterwards only the selected slice is used')
     K = Kernel(repo)
     evaluated = dataset_selection_evaluated(rep, mod, K)
@@ -760,8 +785,9 @@ def depends(rep, repo):
     c08.map_rules(rep, repo)
     c07.launches(rep, repo)        # level launches and the pure-Python grid launcher standing in for CUDA (C07.launch)
     # with and without stripped forks the same overflow indicator must reach a port: the terminator propagation of _wave_eval (C13.overflow)
-    from checks import c13
-    c13.overflow(rep, repo)
+    from checks import c13, kernel_eval
+    ke13 = kernel_eval.decide(rep, repo, 'C13', ('activity', 'overflow'))
+    kernel_eval.with_fallback(rep, ke13, 'C13', lambda: c13.overflow(rep, repo))
 
 
 def thorough(rep, repo):
